@@ -9,6 +9,8 @@ import PM.StepWF
 import Proofs.ReplaceValid
 import Proofs.StepValid
 import Proofs.NoInternal
+import Proofs.MarkupSuccess
+import Proofs.MarkSuccess
 namespace PM.C01
 open PM
 
@@ -430,5 +432,142 @@ example : tinyS.apply (.replace 0 0 Slice.empty false) (.text [97] []) = .error 
 example : IsElem tinyDoc ∧ StepWF (.replaceAround 0 3 2 3 ⟨[.elem 1 [] [] []], 0, 1⟩ 1 false) = true := by
   simp [IsElem, tinyDoc, Node.isLeaf, StepWF, Slice.wf, Slice.size, spineL, spineR]
 end Necessity
+
+
+/-! ## When the node-markup steps apply (success half; helper lemmas: Proofs/MarkupSuccess.lean)
+
+On a valid, normal-form document the three node-level steps do not fail for structural reasons: the
+replace they end in (`replace(pos, pos + 1, ⟨[u], 0, 0 | 1⟩)`) applies **iff** the parent of the addressed
+node allows the mark set of the re-created node `u`; the result is the document with exactly that
+node's markup exchanged (`remarkAt`).  The remaining preconditions are the ones the step itself checks
+before the replace: a non-text node starts at `pos` (`node_at`), and its attribute set computes
+(`recreate`). -/
+
+/-- **attribute step**: marks unchanged, so the parent accepts the node — the step applies -/
+theorem attr_applies (S : Schema) (ty : TypeId) (a : Attrs) (mk : Marks) (kids : List Node)
+    (pos : Nat) (name value : String) (n u : Node)
+    (hd : Valid S (.elem ty a mk kids)) (hn : fnorm kids = true)
+    (hat : (Node.elem ty a mk kids).nodeAt pos = .ok (some n))
+    (hu : S.recreate n (n.attrs.filter (·.1 != name) ++ [(name, value)]) n.marks = .ok u) :
+    S.apply (.attr pos name value) (.elem ty a mk kids) = .ok (.elem ty a mk (remarkAt kids pos u)) :=
+  attrStep_applies S ty a mk kids pos name value n u hd hn hat hu
+
+/-- **add-node-mark step**: applies iff the parent of the addressed node allows the new mark set
+    (`parentTyAt` = type of that parent); otherwise the result is a failure, never an invalid document -/
+theorem addNodeMark_applies_iff (S : Schema) (ty : TypeId) (a : Attrs) (mk : Marks) (kids : List Node)
+    (pos : Nat) (m : Mark) (n u : Node)
+    (hd : Valid S (.elem ty a mk kids)) (hn : fnorm kids = true)
+    (hat : (Node.elem ty a mk kids).nodeAt pos = .ok (some n))
+    (hu : S.recreate n n.attrs (m.addToSet S n.marks) = .ok u) :
+    S.apply (.addNodeMark pos m) (.elem ty a mk kids) =
+      if (S.nodeType (parentTyAt ty kids pos)).allowsMarks (m.addToSet S n.marks)
+      then .ok (.elem ty a mk (remarkAt kids pos u)) else .error .failed :=
+  PM.addNodeMark_applies_iff S ty a mk kids pos m n u hd hn hat hu
+
+/-- sufficient for the add-node-mark step: the parent allows the mark's type -/
+theorem addNodeMark_applies (S : Schema) (ty : TypeId) (a : Attrs) (mk : Marks) (kids : List Node)
+    (pos : Nat) (m : Mark) (n u : Node)
+    (hd : Valid S (.elem ty a mk kids)) (hn : fnorm kids = true)
+    (hat : (Node.elem ty a mk kids).nodeAt pos = .ok (some n))
+    (hu : S.recreate n n.attrs (m.addToSet S n.marks) = .ok u)
+    (hp : (S.nodeType (parentTyAt ty kids pos)).allowsMarkType m.ty = true) :
+    S.apply (.addNodeMark pos m) (.elem ty a mk kids) = .ok (.elem ty a mk (remarkAt kids pos u)) :=
+  PM.addNodeMark_applies S ty a mk kids pos m n u hd hn hat hu hp
+
+/-- **remove-node-mark step**: always applies (a subset of an allowed mark set is allowed) -/
+theorem removeNodeMark_applies (S : Schema) (ty : TypeId) (a : Attrs) (mk : Marks) (kids : List Node)
+    (pos : Nat) (m : Mark) (n u : Node)
+    (hd : Valid S (.elem ty a mk kids)) (hn : fnorm kids = true)
+    (hat : (Node.elem ty a mk kids).nodeAt pos = .ok (some n))
+    (hu : S.recreate n n.attrs (m.removeFromSet n.marks) = .ok u) :
+    S.apply (.removeNodeMark pos m) (.elem ty a mk kids) = .ok (.elem ty a mk (remarkAt kids pos u)) :=
+  PM.removeNodeMark_applies S ty a mk kids pos m n u hd hn hat hu
+
+/-! ## The range mark steps always apply (helper lemmas: Proofs/TokValid.lean, Proofs/MarkSuccess.lean)
+
+`TextStable` (merging two adjacent text children is harmless) is what *validity of the result* needs.
+For *success* the converse direction matters as well: marking the inner part of a text node splits it
+into up to three text children, so the parent must accept a further text child wherever it accepts
+one — `TextLoop`.  `TextStable` alone is not enough.  Counterexample (schema `doc: para+`,
+`para: text?` with all marks allowed, mark `em`; `TextStable` holds vacuously, `TextLoop` fails):
+
+    doc(para("abcd")):   AddMarkStep(2, 4, em).apply(doc)      → failed: "Invalid content for node para"
+                         AddMarkStep(1, 5, em).apply(doc)      → doc(para(em("abcd")))
+    doc(para(em("abcd"))): RemoveMarkStep(2, 4, em).apply(doc) → failed: "Invalid content for node para"
+
+(real code, `/repo`, 2026-09-30); the model agrees (`#eval` of `Schema.apply` on the same schema and
+documents: `.error .failed`, `.ok …`, `.error .failed`).  Every bundled schema and every `text*` /
+`inline*` / `(text | x)+` style expression satisfies `TextLoop`. -/
+
+/-- `TextLoop` is the stronger condition -/
+theorem textLoop_textStable (S : Schema) (h : TextLoop S) : TextStable S := h.stable
+
+/-- **add-mark step**: on a valid, normal-form document it applies for every in-range, pair-aligned
+    `f ≤ t` (never a failure, never an exception) when text children may repeat -/
+theorem addMark_applies (S : Schema) (hts : TextLoop S) (ty : TypeId) (a : Attrs) (mk : Marks)
+    (kids : List Node) (f t : Nat) (m : Mark)
+    (hd : Valid S (.elem ty a mk kids)) (hn : fnorm kids = true)
+    (hft : f ≤ t) (ht : t ≤ fsize kids)
+    (haf : alignedAt kids f = true) (hat : alignedAt kids t = true) :
+    ∃ doc', S.apply (.addMark f t m) (.elem ty a mk kids) = .ok doc' ∧ Valid S doc' := by
+  obtain ⟨doc', h⟩ := PM.addMark_applies S hts ty a mk kids f t m hd hn hft ht haf hat
+  exact ⟨doc', h, addMark_valid S _ doc' f t m hd hts.stable h⟩
+
+/-- **remove-mark step**: likewise -/
+theorem removeMark_applies (S : Schema) (hts : TextLoop S) (ty : TypeId) (a : Attrs) (mk : Marks)
+    (kids : List Node) (f t : Nat) (m : Mark)
+    (hd : Valid S (.elem ty a mk kids)) (hn : fnorm kids = true)
+    (hft : f ≤ t) (ht : t ≤ fsize kids)
+    (haf : alignedAt kids f = true) (hat : alignedAt kids t = true) :
+    ∃ doc', S.apply (.removeMark f t m) (.elem ty a mk kids) = .ok doc' ∧ Valid S doc' := by
+  obtain ⟨doc', h⟩ := PM.removeMark_applies S hts ty a mk kids f t m hd hn hft ht haf hat
+  exact ⟨doc', h, removeMark_valid S _ doc' f t m hd hts.stable h⟩
+
+/-! Non-vacuity: a concrete schema with `TextLoop` (`doc: para*`, `para: text*` all marks, mark `em`)
+    and a document meeting every hypothesis of `addMark_applies` (`doc(p("ab"), p("c"))`, range 2 … 3). -/
+section Example
+private def tinyS2 : Schema :=
+  { nodes := #[
+      { name := "doc", isText := false, isInline := false, isLeaf := false, isAtom := false,
+        inlineContent := false, isolating := false, defining := false, code := false,
+        dfa := #[⟨true, [(1, 0)]⟩], markSet := some [], attrs := [] },
+      { name := "para", isText := false, isInline := false, isLeaf := false, isAtom := false,
+        inlineContent := true, isolating := false, defining := false, code := false,
+        dfa := #[⟨true, [(2, 0)]⟩], markSet := none, attrs := [] },
+      { name := "text", isText := true, isInline := true, isLeaf := true, isAtom := true,
+        inlineContent := false, isolating := false, defining := false, code := false,
+        dfa := #[⟨true, []⟩], markSet := some [], attrs := [] }],
+    marks := #[⟨"em", [0], true, []⟩], top := 0, textTy := 2 }
+
+private theorem tiny_loop : TextLoop tinyS2 := by
+  intro t q q1 h
+  match t, q with
+  | 0, 0 => simp [Schema.dfa, Schema.nodeType, tinyS2, Dfa.matchType, Dfa.edgesOf] at h
+  | 1, 0 =>
+    have : q1 = 0 := by
+      simp [Schema.dfa, Schema.nodeType, tinyS2, Dfa.matchType, Dfa.edgesOf] at h; omega
+    subst this; exact h
+  | 2, 0 => simp [Schema.dfa, Schema.nodeType, tinyS2, Dfa.matchType, Dfa.edgesOf] at h
+  | 0, q + 1 => simp [Schema.dfa, Schema.nodeType, tinyS2, Dfa.matchType, Dfa.edgesOf] at h
+  | 1, q + 1 => simp [Schema.dfa, Schema.nodeType, tinyS2, Dfa.matchType, Dfa.edgesOf] at h
+  | 2, q + 1 => simp [Schema.dfa, Schema.nodeType, tinyS2, Dfa.matchType, Dfa.edgesOf] at h
+  | t + 3, q =>
+    have : (tinyS2.dfa (t + 3)) = #[] := by
+      simp [Schema.dfa, Schema.nodeType, tinyS2]
+      rfl
+    rw [this] at h
+    simp [Dfa.matchType, Dfa.edgesOf] at h
+
+private def tinyKids : List Node :=
+  [.elem 1 [] [] [.text [97, 98] []], .elem 1 [] [] [.text [99] []]]
+
+example : ∃ doc', tinyS2.apply (.addMark 2 3 ⟨0, []⟩) (.elem 0 [] [] tinyKids) = .ok doc' ∧ Valid tinyS2 doc' := by
+  refine addMark_applies tinyS2 tiny_loop 0 [] [] tinyKids 2 3 ⟨0, []⟩ ?_ ?_ (by omega) ?_ ?_ ?_
+  · simp [Valid, tinyKids, Schema.checkNode, Schema.checkKids]; decide
+  · simp [tinyKids, fnorm, fnormKids, Node.norm, chainOk, adjOk]
+  · simp [tinyKids]
+  · simp [tinyKids, alignedAt, splitOk, isHigh, isLow]
+  · simp [tinyKids, alignedAt]
+end Example
 
 end PM.C01
